@@ -10,6 +10,7 @@ package main
 
 import (
 	"go/token"
+	"go/types"
 	"sort"
 	"strings"
 
@@ -43,8 +44,55 @@ type c13key struct {
 	in c13st
 }
 
-// c13out: the states at the returns of a function, split by a boolean result where it is known.
-type c13out struct{ t, f, o c13set }
+// c13cls: what is known about one result of a helper at one of its returns: a boolean verdict, nil / non-nil for a
+// pointer-like result (the admitted target, an error), the value of an integer constant (an enum verdict).
+type c13cls struct {
+	kind int8 // 0 unknown, 1 true, 2 false, 3 nil, 4 non-nil, 5 the integer constant n
+	n    int64
+}
+
+// c13out: the states at the returns of a function (all), and per result index the same states keyed by what is known
+// about that result there. Every state of all occurs under at least one class of every result.
+type c13out struct {
+	all c13set
+	res []map[c13cls]c13set
+}
+
+func newC13out(nres int) *c13out {
+	o := &c13out{all: c13set{}, res: make([]map[c13cls]c13set, nres)}
+	for k := range o.res {
+		o.res[k] = map[c13cls]c13set{}
+	}
+	return o
+}
+
+func (o *c13out) add(s c13st, cls []c13cls) {
+	o.all[s] = true
+	for k, cl := range cls {
+		if k >= len(o.res) {
+			break
+		}
+		if o.res[k][cl] == nil {
+			o.res[k][cl] = c13set{}
+		}
+		o.res[k][cl][s] = true
+	}
+}
+
+func (o *c13out) merge(p *c13out) {
+	o.all.addAll(p.all)
+	for k := range p.res {
+		if k >= len(o.res) {
+			break
+		}
+		for cl, set := range p.res[k] {
+			if o.res[k][cl] == nil {
+				o.res[k][cl] = c13set{}
+			}
+			o.res[k][cl].addAll(set)
+		}
+	}
+}
 
 type c13flow struct {
 	c            *Ctx
@@ -56,9 +104,9 @@ type c13flow struct {
 	how          map[ssa.Instruction]string
 	memo         map[c13key]*c13out
 	active       map[c13key]bool
-	// per call of an entered helper: the caller-side states after the call, by result
-	resT, resF, resO map[ssa.Instruction]c13set
-	phiDepth         int
+	// per call of an entered helper: the caller-side states after the call, by what the helper returned in them
+	calls    map[ssa.Instruction]*c13out
+	phiDepth int
 }
 
 func newC13flow(c *Ctx) *c13flow {
@@ -66,8 +114,7 @@ func newC13flow(c *Ctx) *c13flow {
 		denied:  c.method("route", "Target", "AccessDeniedHTTP"),
 		auth:    c.method("route", "Target", "Authorized"),
 		answers: map[ssa.Instruction]c13set{}, contacts: map[ssa.Instruction]c13set{}, how: map[ssa.Instruction]string{},
-		memo: map[c13key]*c13out{}, active: map[c13key]bool{},
-		resT: map[ssa.Instruction]c13set{}, resF: map[ssa.Instruction]c13set{}, resO: map[ssa.Instruction]c13set{}}
+		memo: map[c13key]*c13out{}, active: map[c13key]bool{}, calls: map[ssa.Instruction]*c13out{}}
 }
 
 // c13isAnswer: the instruction writes the redirect answer: http.Redirect(w, r, url, code), or
@@ -197,6 +244,167 @@ func c13codeIvals(k int8) iset {
 	return iset{{0, 0}, {300, 399}}
 }
 
+// c13cell: a load of a local cell (a variable captured by a closure) stands for the value written to it: by the
+// closest store before the load in the same block, or - when every store to the cell is executed before the load on
+// all paths (a straight sequence of assignments) - by the last of them.
+func c13cell(v ssa.Value) ssa.Value {
+	for depth := 0; depth < 3; depth++ {
+		u, ok := v.(*ssa.UnOp)
+		if !ok || u.Op != token.MUL {
+			return v
+		}
+		a, ok := u.X.(*ssa.Alloc)
+		if !ok || a.Referrers() == nil || u.Block() == nil {
+			return v
+		}
+		var val ssa.Value
+		for _, in := range u.Block().Instrs {
+			if in == ssa.Instruction(u) {
+				break
+			}
+			if st, isSt := in.(*ssa.Store); isSt && st.Addr == a {
+				val = st.Val
+			}
+		}
+		if val == nil {
+			var stores []*ssa.Store
+			for _, r := range *a.Referrers() {
+				if st, isSt := r.(*ssa.Store); isSt && st.Addr == a {
+					if !dominatesInstr(st, u) {
+						return v
+					}
+					stores = append(stores, st)
+				}
+			}
+			for _, st := range stores {
+				last := true
+				for _, o := range stores {
+					if o != st && !dominatesInstr(o, st) {
+						last = false
+					}
+				}
+				if last {
+					val = st.Val
+				}
+			}
+			if val == nil {
+				return v
+			}
+		}
+		v = val
+	}
+	return v
+}
+
+// resultOf: v is result idx of a call that entered a helper (the call itself, one component of its tuple, or a local
+// cell holding it).
+func (fl *c13flow) resultOf(v ssa.Value) (call *ssa.Call, idx int, ok bool) {
+	v = c13cell(v)
+	if ex, isEx := v.(*ssa.Extract); isEx {
+		if cl, isCall := ex.Tuple.(*ssa.Call); isCall && fl.calls[cl] != nil {
+			return cl, ex.Index, true
+		}
+		return nil, 0, false
+	}
+	if cl, isCall := v.(*ssa.Call); isCall && fl.calls[cl] != nil {
+		return cl, 0, true
+	}
+	return nil, 0, false
+}
+
+// correlate keeps state s only if the helper entered at call can, in s, return a result idx for which the tested
+// condition has this truth value (verdict: 1 the condition holds for such a result, -1 it does not, 0 not known).
+func (fl *c13flow) correlate(call *ssa.Call, idx int, s c13st, truth bool, verdict func(c13cls) int) []c13st {
+	o := fl.calls[call]
+	if o == nil || idx >= len(o.res) || !o.all[s] {
+		return []c13st{s} // no summary, or the state changed since the call: no correlation
+	}
+	for cls, set := range o.res[idx] {
+		if !set[s] {
+			continue
+		}
+		if v := verdict(cls); v == 0 || (v > 0) == truth {
+			return []c13st{s}
+		}
+	}
+	return nil
+}
+
+func c13boolVerdict(cls c13cls) int {
+	switch cls.kind {
+	case 1:
+		return 1
+	case 2:
+		return -1
+	}
+	return 0
+}
+
+// c13eqVerdict: the verdict of `result == k` for a constant k.
+func c13eqVerdict(k *ssa.Const) func(c13cls) int {
+	return func(cls c13cls) int {
+		switch {
+		case k.Value == nil && cls.kind == 3:
+			return 1
+		case k.Value == nil && cls.kind == 4:
+			return -1
+		case cls.kind == 5:
+			if n, ok := constInt(k); ok {
+				if n == cls.n {
+					return 1
+				}
+				return -1
+			}
+		case cls.kind == 1 || cls.kind == 2:
+			if b, ok := constBool(k); ok {
+				if b == (cls.kind == 1) {
+					return 1
+				}
+				return -1
+			}
+		}
+		return 0
+	}
+}
+
+// c13classify: what is known about a non-boolean value returned where facts hold.
+func c13classify(v ssa.Value, facts []Fact) c13cls {
+	switch x := v.(type) {
+	case *ssa.Const:
+		if x.Value == nil {
+			switch x.Type().Underlying().(type) {
+			case *types.Pointer, *types.Interface, *types.Slice, *types.Map, *types.Chan, *types.Signature:
+				return c13cls{kind: 3}
+			}
+			return c13cls{}
+		}
+		if n, ok := constInt(x); ok {
+			return c13cls{kind: 5, n: n}
+		}
+		return c13cls{}
+	case *ssa.Alloc, *ssa.MakeInterface, *ssa.MakeClosure, *ssa.MakeMap, *ssa.MakeSlice, *ssa.MakeChan, *ssa.FieldAddr, *ssa.IndexAddr, *ssa.Function, *ssa.Global:
+		return c13cls{kind: 4}
+	}
+	if sentinelError(v) {
+		return c13cls{kind: 4} // `var errDenied = errors.New(..)`
+	}
+	if call, ok := v.(*ssa.Call); ok {
+		switch calleeName(&call.Call) {
+		case "errors.New", "fmt.Errorf":
+			return c13cls{kind: 4}
+		}
+	}
+	for _, f := range facts {
+		if nn, ok := nilFact(f, sameVal(v)); ok {
+			if nn {
+				return c13cls{kind: 4}
+			}
+			return c13cls{kind: 3}
+		}
+	}
+	return c13cls{}
+}
+
 // assume refines state s by "v evaluates to truth"; nil = this outcome is impossible in s.
 func (fl *c13flow) assume(v ssa.Value, truth bool, s c13st) []c13st {
 	for {
@@ -205,6 +413,10 @@ func (fl *c13flow) assume(v ssa.Value, truth bool, s c13st) []c13st {
 			break
 		}
 		v, truth = u.X, !truth
+	}
+	v = c13cell(v)
+	if call, idx, ok := fl.resultOf(v); ok && typeStr(v.Type()) == "bool" {
+		return fl.correlate(call, idx, s, truth, c13boolVerdict)
 	}
 	switch x := v.(type) {
 	case *ssa.Const:
@@ -215,6 +427,18 @@ func (fl *c13flow) assume(v ssa.Value, truth bool, s c13st) []c13st {
 			return nil
 		}
 	case *ssa.BinOp:
+		// the result of an entered helper compared with a constant (`t == nil`, `err != nil`, `verdict == admitted`)
+		if x.Op == token.EQL || x.Op == token.NEQ {
+			for _, side := range [][2]ssa.Value{{x.X, x.Y}, {x.Y, x.X}} {
+				k, isK := side[1].(*ssa.Const)
+				if !isK {
+					continue
+				}
+				if call, idx, ok := fl.resultOf(side[0]); ok {
+					return fl.correlate(call, idx, s, (x.Op == token.EQL) == truth, c13eqVerdict(k))
+				}
+			}
+		}
 		// comparisons of Target.RedirectCode with a constant
 		var fld ssa.Value
 		switch {
@@ -302,17 +526,6 @@ func (fl *c13flow) assume(v ssa.Value, truth bool, s c13st) []c13st {
 			}
 			return []c13st{s}
 		}
-		// result of an entered helper: keep the state only if the helper can return this result in it
-		t, f, o := fl.resT[x], fl.resF[x], fl.resO[x]
-		if t != nil || f != nil || o != nil {
-			if !t[s] && !f[s] && !o[s] {
-				return []c13st{s} // changed since the call: no correlation
-			}
-			if o[s] || (truth && t[s]) || (!truth && f[s]) {
-				return []c13st{s}
-			}
-			return nil
-		}
 	}
 	return []c13st{s}
 }
@@ -338,15 +551,15 @@ func (fl *c13flow) run(fn *ssa.Function, in c13st, depth int) *c13out {
 	if o := fl.memo[key]; o != nil {
 		return o
 	}
-	out := &c13out{t: c13set{}, f: c13set{}, o: c13set{}}
+	nres := fn.Signature.Results().Len()
+	out := newC13out(nres)
 	if fl.active[key] || depth > 4 || len(fn.Blocks) == 0 {
-		out.o[in] = true // recursion: no information
+		out.add(in, make([]c13cls, nres)) // recursion: no information
 		return out
 	}
 	fl.active[key] = true
 	defer func() { delete(fl.active, key) }()
 
-	boolResult := fn.Signature.Results().Len() == 1 && typeStr(fn.Signature.Results().At(0).Type()) == "bool"
 	inSt := map[*ssa.BasicBlock]c13set{fn.Blocks[0]: {in: true}}
 	edge := map[[2]*ssa.BasicBlock]c13set{}
 	work := []*ssa.BasicBlock{fn.Blocks[0]}
@@ -395,19 +608,13 @@ func (fl *c13flow) run(fn *ssa.Function, in c13st, depth int) *c13out {
 			}
 			if g := fl.entered(ins, depth); g != nil {
 				next := c13set{}
-				for _, m := range []map[ssa.Instruction]c13set{fl.resT, fl.resF, fl.resO} {
-					if m[ins] == nil {
-						m[ins] = c13set{}
-					}
+				if fl.calls[ins] == nil {
+					fl.calls[ins] = newC13out(g.Signature.Results().Len())
 				}
 				for s := range cur {
 					o := fl.run(g, s, depth+1)
-					fl.resT[ins].addAll(o.t)
-					fl.resF[ins].addAll(o.f)
-					fl.resO[ins].addAll(o.o)
-					next.addAll(o.t)
-					next.addAll(o.f)
-					next.addAll(o.o)
+					fl.calls[ins].merge(o)
+					next.addAll(o.all)
 				}
 				cur = next
 				continue
@@ -442,10 +649,11 @@ func (fl *c13flow) run(fn *ssa.Function, in c13st, depth int) *c13out {
 		}
 		// threading: a terminator that tests / returns a phi of this block sees the per-edge value
 		type inflow struct {
-			sts c13set
-			sub map[*ssa.Phi]ssa.Value
+			sts  c13set
+			sub  map[*ssa.Phi]ssa.Value
+			pred *ssa.BasicBlock
 		}
-		flows := []inflow{{cur, nil}}
+		flows := []inflow{{cur, nil, nil}}
 		if c13onlyPhisBeforeTerminator(b) && len(b.Preds) > 1 {
 			flows = nil
 			for k, p := range b.Preds {
@@ -459,7 +667,7 @@ func (fl *c13flow) run(fn *ssa.Function, in c13st, depth int) *c13out {
 						sub[phi] = phi.Edges[k]
 					}
 				}
-				flows = append(flows, inflow{e, sub})
+				flows = append(flows, inflow{e, sub, p})
 			}
 		}
 		resolve := func(v ssa.Value, sub map[*ssa.Phi]ssa.Value) (ssa.Value, bool) {
@@ -488,18 +696,43 @@ func (fl *c13flow) run(fn *ssa.Function, in c13st, depth int) *c13out {
 				}
 			}
 		case *ssa.Return:
+			// every result is classified at this return (boolean: the state is refined by either outcome; pointer-like:
+			// nil / non-nil; integer constant), so that the caller's test of the result selects the states it can see
+			type cand struct {
+				s   c13st
+				cls []c13cls
+			}
 			for _, fw := range flows {
-				if !boolResult || len(term.Results) != 1 {
-					out.o.addAll(fw.sts)
-					continue
+				var facts []Fact
+				if fw.pred != nil {
+					facts = c13edgeFacts(fw.pred, b)
+				} else {
+					facts = c13factsAt(b)
 				}
-				res, neg := resolve(term.Results[0], fw.sub)
 				for s := range fw.sts {
-					for _, s2 := range fl.assume(res, !neg, s) {
-						out.t[s2] = true
+					cands := []cand{{s, nil}}
+					for _, r := range term.Results {
+						res, neg := resolve(r, fw.sub)
+						var next []cand
+						for _, cd := range cands {
+							if typeStr(r.Type()) != "bool" {
+								next = append(next, cand{cd.s, append(append([]c13cls{}, cd.cls...), c13classify(res, facts))})
+								continue
+							}
+							for _, truth := range []bool{true, false} {
+								kind := int8(1)
+								if !truth {
+									kind = 2
+								}
+								for _, s2 := range fl.assume(res, truth != neg, cd.s) {
+									next = append(next, cand{s2, append(append([]c13cls{}, cd.cls...), c13cls{kind: kind})})
+								}
+							}
+						}
+						cands = next
 					}
-					for _, s2 := range fl.assume(res, neg, s) {
-						out.f[s2] = true
+					for _, cd := range cands {
+						out.add(cd.s, cd.cls)
 					}
 				}
 			}
